@@ -21,7 +21,7 @@ pub fn property() -> Property {
                 name: "status",
                 quick: 12_000,
                 thorough: 1_200_000,
-                single_shard: false,
+                single_shard: false, supplementary: false,
                 run: |cfg| run_part(cfg, prop_mix(), |r| PosCase { fen: gen::position(r, ClockDomain::Keep).fen() }, check_status),
                 replay: |v| replay_case::<PosCase, _>(v, check_status),
             },
